@@ -335,7 +335,7 @@ func TestC19(t *testing.T) {
 		}
 	}
 	rec.Count("launch_forms_excluded_by_known_finding", nOff)
-	checks := env.Pick(600, 12000)
+	checks := env.Pick(600, 6000)
 	nativeEvery := 6
 	var units []native.Unit
 	cases := map[string]*c19Case{}
